@@ -108,6 +108,26 @@ func c12Workload(c *Ctx, fam *report.Family, r *rng.R, nCfg, rounds int) error {
 	prevProcs := runtime.GOMAXPROCS(0)
 	defer runtime.GOMAXPROCS(prevProcs)
 	noted := map[string]bool{}
+	// cold start: the very first packagings of this process run concurrently, before anything was packaged
+	// sequentially – state that is initialised lazily on first use is then initialised under contention
+	yCold := isoDenseConfigYAML(tree, scripts)
+	runtime.GOMAXPROCS(16)
+	coldRes := c12VariantB(yCold, 4, make([]time.Duration, 4), []int{0, 1, 2, 3})
+	fam.Distribution["goroutine-launches"] += 4
+	fam.Count("cold-start")
+	if coldCfg, err := isoParse(yCold); err == nil {
+		for i, f := range Formats {
+			want := isoPackage(coldCfg, f)
+			for g := 0; g < 4; g++ {
+				fam.Eval(fmt.Sprintf("cold|B%d|%s", g, f), true)
+				if !coldRes[g][i].equal(want) {
+					c.Rep.Find(report.Finding{Property: "C12", Family: fam.Name, Shape: "concurrent-result-differs:" + f + ":cold",
+						What:  fmt.Sprintf("the %s package built in goroutine %d of 4 as the first packaging of the process: %s", f, g, isoDescribeDiff(coldRes[g][i], want)),
+						Input: map[string]any{"yaml": yCold, "variant": c12VarB, "gomaxprocs": 16, "round": "cold start"}})
+				}
+			}
+		}
+	}
 	for k := 0; k < nCfg; k++ {
 		y := genIsoConfigYAML(r, tree, scripts)
 		if k == 0 {
@@ -189,7 +209,7 @@ func c12EnvInt(name string, def int) int {
 // runC12Child is the workload the race-detector build runs.
 func runC12Child(c *Ctx) error {
 	nCfg, rounds := c12EnvInt("C12_CONFIGS", 6), c12EnvInt("C12_ROUNDS", 8)
-	fam := c.Rep.Family("race-detector", fmt.Sprintf("workload under the race detector: %d generated configurations x %d rounds; variant A: the five formats concurrently from one parsed configuration; variant B: 2..4 goroutines, each parsing its own configuration and packaging all formats; random start offsets 0..300us, GOMAXPROCS in {2,4,16}; every result compared with the sequential one", nCfg, rounds))
+	fam := c.Rep.Family("race-detector", fmt.Sprintf("workload under the race detector: %d generated configurations x %d rounds; variant A: the five formats concurrently from one parsed configuration; variant B: 2..4 goroutines, each parsing its own configuration and packaging all formats; random start offsets 0..300us, GOMAXPROCS in {2,4,16}; the first packagings of the process run concurrently (cold start) before anything is packaged sequentially; every result compared with the sequential one", nCfg, rounds))
 	return c12Workload(c, fam, c.R.Fork("c12-race"), nCfg, rounds)
 }
 
